@@ -40,8 +40,11 @@ func CheckC08(h *History, blk *BlockRecord) []Violation {
 		if !com.Equal(p.LeveragedLpAmount) {
 			out = append(out, Violation{Sig: "C08/position-shares!=committed", Detail: fmt.Sprintf("position %d (owner %s) LeveragedLpAmount=%s committed at its address=%s (height %d; %s)", p.Id, h.W.nameOf(p.Address), p.LeveragedLpAmount, com, s.Height, blockSummary(blk))})
 		}
-		if !p.LeveragedLpAmount.IsPositive() {
-			out = append(out, Violation{Sig: "C08/position-empty", Detail: fmt.Sprintf("stored position %d has LeveragedLpAmount=%s", p.Id, p.LeveragedLpAmount)})
+		if p.LeveragedLpAmount.IsNegative() {
+			out = append(out, Violation{Sig: "C08/position-negative", Detail: fmt.Sprintf("stored position %d has LeveragedLpAmount=%s", p.Id, p.LeveragedLpAmount)})
+		}
+		if p.LeveragedLpAmount.IsZero() {
+			h.Labels["lp-position-with-zero-shares"]++ // odd (dust open on a drained pool) but not excluded by the statement
 		}
 	}
 	for _, lp := range s.LPPools {
